@@ -52,7 +52,7 @@ class C05(RecorderProp):
         for _ in range(self.ASYNC[tier] // 6):
             steps = [[rng.choice(['in', 'in', 'out']), rng.randint(0, 3)] for _ in range(rng.randint(0, 4))]
             for _ in range(rng.choice([1, 1, 2])):
-                steps.insert(rng.randint(0, len(steps)), ['play', rng.choice(['known', 'known', 'unknown'])])
+                steps.insert(rng.randint(0, len(steps)), ['play', rng.choice(['known', 'known', 'unknown', 'known-discard'])])
             cases.append({'kind': 'playinside', 'model': False, 'steps': steps, 'end': rng.choice(['ret', 'ret', 'raise'])})
         return cases
 
@@ -166,7 +166,11 @@ class C05(RecorderProp):
                     got.append(self_.snd(st[1]))
                 else:
                     try:
-                        tr.play(ref_id if st[1] == 'known' else 'Ref/unknown', lambda recording: Ref().run())
+                        def inner(recording, how=st[1]):
+                            if how == 'known-discard':
+                                tr.discard_recording()       # the replayed code drops the recording that is in flight around it
+                            return Ref().run()
+                        tr.play('Ref/unknown' if st[1] == 'unknown' else ref_id, inner)
                         got.append('played')
                     except Exception as ex:
                         got.append(type(ex).__name__)
@@ -179,12 +183,24 @@ class C05(RecorderProp):
             end = ['ret', Outer().run()]
         except Exception as ex:
             end = ['exc', type(ex).__name__]
+        # a probe: the reference operation recorded once more afterwards holds what its first recording holds
+        ref_keys = sorted(cassette.get_recording(ref_id).get_all_keys())
+        before = cassette.get_last_recording_id()
+        n_log = len(log)
+        try:
+            Ref().run()
+        except Exception:
+            pass
+        probe_id = cassette.get_last_recording_id()
+        probe_keys = sorted(cassette.get_recording(probe_id).get_all_keys()) if probe_id != before else None
+        del log[n_log:]
         recorded = None
-        rid = cassette.get_last_recording_id()
+        rid = before
         if rid != ref_id and log[-1:] == ['save']:
             rec = cassette.get_recording(rid)
             recorded = sorted([k, rec.get_data(k)['args'][-1]] for k in rec.get_all_keys() if k.startswith('output: snd #') and k.endswith('.output'))
-        return {'end': end, 'log': list(log), 'idle': [bool(tr.in_recording_mode), bool(tr.in_playback_mode)], 'recorded_snd': recorded}
+        return {'end': end, 'log': list(log), 'idle': [bool(tr.in_recording_mode), bool(tr.in_playback_mode)], 'recorded_snd': recorded,
+                'ref_keys': ref_keys, 'probe_keys': probe_keys}
 
     def run_impl(self, case):
         if case.get('kind') == 'playinside':
